@@ -73,6 +73,13 @@ Print Assumptions C03_objlike.
 (* ------------------------------------------------------------------ *)
 (* full conformance is refuted: one closed witness per finding class    *)
 (* ------------------------------------------------------------------ *)
+(* S (Prosser) is stricter than the implementation, gcc and clang in a corner ISO C leaves open
+   (hide sets inherited through a function-like invocation); see Proofs/C03w.v for the witness text *)
+Theorem C03_conformance_refuted_hide_set_inheritance :
+  disagree w_inherit [tI "H"; tP "("; tP ","; tP ","; tI "B"; tP ")"].
+Proof. exact refuted_hide_set_inheritance. Qed.
+Print Assumptions C03_conformance_refuted_hide_set_inheritance.
+
 (* the backstop: max_level - 1 nested object-like macros give the token 0; one fewer is fine *)
 Theorem C03_conformance_refuted_depth_limit :
   disagree (chain 0 (Nat.pred (Nat.pred Gen.C03_tables.max_level))) [tI "a"]
